@@ -837,17 +837,18 @@ class VMF:
             worldspawn.solids = []
         map_obj.brushes = worldspawn.solids
 
-        for ent in tree.find_all('Entity'):
-            map_obj.add_ent(
-                Entity.parse(map_obj, ent, False)  # hidden=False
-            )
-
-        # find hidden entities
-        for hidden_ent in tree.find_all('hidden'):
-            for ent in hidden_ent:
+        # Visible entities are at the top level, hidden ones are wrapped in a hidden block.
+        # Go through both in one pass, so the entities keep their order in the file.
+        for item in tree:
+            if item.name == 'entity':
                 map_obj.add_ent(
-                    Entity.parse(map_obj, ent, True)  # hidden=True
+                    Entity.parse(map_obj, item, False)  # hidden=False
                 )
+            elif item.name == 'hidden':
+                for ent in item:
+                    map_obj.add_ent(
+                        Entity.parse(map_obj, ent, True)  # hidden=True
+                    )
 
         return map_obj
 
